@@ -176,9 +176,10 @@ def model_conformance(units, obs, c):
             continue
         out["programs_compared"] += 1
         out["compared"].add(u.name)
-        real = derivelib.norm(derivelib.rename_self(tsparse.strip(d["body"]), u.name))
+        rname = u.name + ("G" if u.meta["prog"].get("garg") else "")
+        real = derivelib.norm(derivelib.rename_self(tsparse.strip(d["body"]), rname))
         model = derivelib.norm(pred["ts"])
-        if real == model:
+        if real == model and [p_["name"] for p_ in d["params"]] == pred.get("params", []):
             out["ts_equal"] += 1
         else:
             out["ts_drift"] += 1
@@ -189,7 +190,7 @@ def model_conformance(units, obs, c):
         for pv, s_ in zip(order, obs[u.name]["samples"]):
             out["values_compared"] += 1
             if "ok" in s_:
-                rj = derivelib.rename_self(tsparse.json_value(json.loads(s_["ok"])), u.name)
+                rj = derivelib.rename_self(tsparse.json_value(json.loads(s_["ok"])), rname)
                 same = rj == pv["json"]
             else:
                 same = pv["json"].get("k") == "error"
